@@ -505,6 +505,14 @@ func (w *world) exec(r *rec, op string) string {
 			w.log("stopseen")
 		}
 		ans = strconv.FormatBool(b)
+	case "ctxstopped":
+		// ContextStopped(): cancelled by shutdown() after the stopped flag was stored, so a cancelled context is the same
+		// evidence of a begun shutdown as IsStopped() == true
+		b := w.d.ContextStopped().Err() != nil
+		if b {
+			w.log("stopseen")
+		}
+		ans = strconv.FormatBool(b)
 	case "sdw":
 		ans = w.sdw()
 	case "sd":
